@@ -140,6 +140,7 @@ func runC01(c *simkit.Ctx) {
 				crashesLeft--
 				k := 1 + t.Choose(8)
 				torn := t.Choose(3) * 100 // 0, 100/256, 200/256 of the crashing write kept
+				world.Quiesce()
 				victim.Disk.ArmCrash(k, torn)
 				c.Logf("arm crash: %d-th disk call of commit of block %d, torn=%d/256", k, blk.Header.Height, torn)
 			}
